@@ -143,6 +143,7 @@ type Rig struct {
 	Route  *dispatch.Route
 	S      *Sched
 	Marker marker.GroupMarker
+	Reg    *prometheus.Registry
 }
 
 type Limits int
@@ -183,7 +184,7 @@ func NewRig(t testing.TB, confYAML string, sched *Sched, stage notify.Stage, mai
 		dispatch.NewDispatcherMetrics(false, reg, nil), nil)
 	go d.Run(time.Now())
 	d.WaitForLoading()
-	return &Rig{Alerts: alerts, Disp: d, Route: route, S: sched, Marker: mk}
+	return &Rig{Alerts: alerts, Disp: d, Route: route, S: sched, Marker: mk, Reg: reg}
 }
 
 func (r *Rig) Close() {
@@ -193,6 +194,30 @@ func (r *Rig) Close() {
 	r.Disp.Stop()
 	r.Alerts.Close()
 	dispatch.SetVerifYield(nil)
+}
+
+// Metric reads a gauge / counter of the dispatcher's registry (0 if absent).
+func (r *Rig) Metric(name string) float64 {
+	mfs, err := r.Reg.Gather()
+	if err != nil {
+		return -1
+	}
+	for _, mf := range mfs {
+		if mf.GetName() != name {
+			continue
+		}
+		v := 0.0
+		for _, m := range mf.GetMetric() {
+			if m.Gauge != nil {
+				v += m.Gauge.GetValue()
+			}
+			if m.Counter != nil {
+				v += m.Counter.GetValue()
+			}
+		}
+		return v
+	}
+	return 0
 }
 
 // GroupView is what Dispatcher.Groups shows for one aggregation group.
